@@ -1,5 +1,7 @@
 (** C10 - Position and hash look-ups tell the truth (reference side). *)
 From Utreexo Require Import Spec.Forest Proofs.SpecBasics.
+From Utreexo Require Import Base.Hash Model.MapRead Spec.Forest Spec.Oracle Proofs.MapReadSpec.
+From Coq Require Import List NArith.
 Open Scope N_scope.
 
 Theorem C10_leaf_pos_found : forall (H : Type) (HO : ops H), ops_ok HO -> forall rows lay h p,
@@ -17,3 +19,74 @@ Theorem C10_hash_at_absent : forall (H : Type) (HO : ops H) rows lay p,
   (forall x, In x lay -> npos rows x <> p) -> hash_at HO rows lay p = op_empty HO.
 Proof. exact hash_at_absent. Qed.
 Print Assumptions C10_hash_at_absent.
+
+(** ** merged from C10c.v: the mirror of the MapPollard read side (Model/MapRead.v) on states consistent with the reference *)
+
+Theorem C10c_leafpos : forall (H : Type) (HO : ops H), ops_ok HO ->
+  forall (s : slots H) (R : list H) (m : mstate H), consistent HO s R m ->
+  forall h : H,
+  GetLeafPosition HO m h = exp_leafpos HO (mk_ctx HO s) (memH HO h R) h.
+Proof. exact map_leafpos_iff. Qed.
+Print Assumptions C10c_leafpos.
+
+Theorem C10c_leafpos_some : forall (H : Type) (HO : ops H), ops_ok HO ->
+  forall (s : slots H) (R : list H) (m : mstate H), consistent HO s R m ->
+  forall (h : H) (p : N),
+  GetLeafPosition HO m h = Some p <->
+  In h R /\ exists x, find_leaf HO (layout HO s) h = Some x /\
+                      p = npos (rows_of (num_leaves s)) x.
+Proof. exact map_leafpos_some. Qed.
+Print Assumptions C10c_leafpos_some.
+
+Theorem C10c_leafpos_none : forall (H : Type) (HO : ops H), ops_ok HO ->
+  forall (s : slots H) (R : list H) (m : mstate H), consistent HO s R m ->
+  forall h : H, GetLeafPosition HO m h = None <-> ~ In h R.
+Proof. exact map_leafpos_none. Qed.
+Print Assumptions C10c_leafpos_none.
+
+Theorem C10c_leafhashpositions : forall (H : Type) (HO : ops H), ops_ok HO ->
+  forall (s : slots H) (R : list H) (m : mstate H), consistent HO s R m ->
+  forall hs : list H,
+  GetLeafHashPositions HO m hs =
+  map (fun h => match exp_leafpos HO (mk_ctx HO s) (memH HO h R) h with
+                | Some p => p | None => 0 end) hs.
+Proof. exact map_leafhashpositions. Qed.
+Print Assumptions C10c_leafhashpositions.
+
+Theorem C10c_gethash_dual : forall (H : Type) (HO : ops H), ops_ok HO ->
+  forall (s : slots H) (R : list H) (m : mstate H), consistent HO s R m ->
+  forall p : N,
+  chk_gethash_dual HO (mk_ctx HO s) false (N.to_nat (ms_total m)) p (GetHash HO m p) = true.
+Proof. exact map_gethash_dual. Qed.
+Print Assumptions C10c_gethash_dual.
+
+Theorem C10c_gethash_spec : forall (H : Type) (HO : ops H)
+  (s : slots H) (R : list H) (m : mstate H), consistent HO s R m ->
+  forall (p : N) (h : H), GetHash HO m p = h ->
+  h = op_empty HO \/
+  exists x, In x (layout HO s) /\ nhash x = h /\ denotes s m p x /\
+            stored m (gp (ms_total m) (nrow x) (noff x)).
+Proof. exact map_gethash_spec. Qed.
+Print Assumptions C10c_gethash_spec.
+
+Theorem C10c_gethash_stored : forall (H : Type) (HO : ops H)
+  (s : slots H) (R : list H) (m : mstate H), consistent HO s R m ->
+  forall (p : N) (x : node H), In x (layout HO s) -> denotes s m p x ->
+  stored m (gp (ms_total m) (nrow x) (noff x)) -> GetHash HO m p = nhash x.
+Proof. exact map_gethash_stored. Qed.
+Print Assumptions C10c_gethash_stored.
+
+Theorem C10c_gethash_unstored : forall (H : Type) (HO : ops H)
+  (s : slots H) (R : list H) (m : mstate H), consistent HO s R m ->
+  forall p : N,
+  (forall x, In x (layout HO s) -> denotes s m p x ->
+             ~ stored m (gp (ms_total m) (nrow x) (noff x))) ->
+  GetHash HO m p = op_empty HO.
+Proof. exact map_gethash_unstored. Qed.
+Print Assumptions C10c_gethash_unstored.
+
+Theorem C10c_roots : forall (H : Type) (HO : ops H)
+  (s : slots H) (R : list H) (m : mstate H), consistent HO s R m ->
+  getRoots HO m = roots HO s.
+Proof. exact map_getroots. Qed.
+Print Assumptions C10c_roots.
